@@ -705,6 +705,86 @@ static void stampRound(int T, long opsPerThread, int round)
   vh::evaluated(vh::hash64(vh::hash64(vh::hash64(1905, T), round), vh::seed()), T > 1);
 }
 
+
+// ------------------------------------------------------------------ allocation failpoint (same scheme as c12_handoff.cpp)
+// When armed on the calling thread, its n-th next allocation through operator new fails with std::bad_alloc.
+#include <cstdlib>
+#include <cstring>
+#include <new>
+static thread_local int t_failNew = 0;
+static long g_newFailures         = 0;
+void *operator new(std::size_t n)
+{
+  if (t_failNew > 0 && --t_failNew == 0) {
+    ++g_newFailures;
+    throw std::bad_alloc();
+  }
+  void *p = malloc(n ? n : 1);
+  if (!p)
+    throw std::bad_alloc();
+  return p;
+}
+void *operator new[](std::size_t n) { return operator new(n); }
+void operator delete(void *p) noexcept { free(p); }
+void operator delete[](void *p) noexcept { free(p); }
+void operator delete(void *p, std::size_t) noexcept { free(p); }
+void operator delete[](void *p, std::size_t) noexcept { free(p); }
+
+// An Observer whose construction failed (registration ran out of memory) does not exist: its observable must not
+// keep a registration for it. Observed through the observer's storage: a malloc'ed, pattern-filled buffer that stays
+// allocated; whatever the failed constructor left there must still be there after the observable has been destroyed
+// (~Observable clears the observee pointer of every registered observer).
+static void allocFailureCases()
+{
+  long fired = 0, cases = 0;
+  for (int pre = 0; pre <= 17; ++pre)
+    for (int failAt = 1; failAt <= 3; ++failAt) {
+      std::string ctx = "observable with " + std::to_string(pre) + " observers, Observer constructed with allocation #" + std::to_string(failAt) + " of the construction failing";
+      Observable *obs = new Observable();
+      std::vector<Observer *> others;
+      others.reserve(32);
+      for (int i = 0; i < pre; ++i)
+        others.push_back(new Observer(*obs));
+      unsigned char *buf = (unsigned char *)malloc(sizeof(Observer) + 32);
+      memset(buf, 0xAB, sizeof(Observer) + 32);
+      Observer *made = 0;
+      long before    = g_newFailures;
+      t_failNew      = failAt;
+      try {
+        made = new (buf + 16) Observer(*obs);
+      } catch (const std::bad_alloc &) {
+      }
+      t_failNew    = 0;
+      bool failed  = g_newFailures != before && !made;
+      ++cases;
+      if (failed) {
+        ++fired;
+        unsigned char snap[sizeof(Observer) + 32];
+        memcpy(snap, buf, sizeof(snap));
+        obs->notifyObservers();
+        for (size_t i = 0; i < others.size(); ++i)
+          VH_CHECK(others[i]->wasNotified(), "C19:observer:alloc-failure:other-observer-missed-notification", "observer #" + std::to_string(i) + " did not see the notification after a failed registration", ctx);
+        delete obs;
+        obs = 0;
+        VH_CHECK(memcmp(snap, buf, sizeof(snap)) == 0, "C19:observer:dangling-registration-after-failed-construction",
+                 "the observable's destructor wrote into the storage of an observer whose construction had failed (it was still registered)", ctx);
+        for (size_t i = 0; i < others.size(); ++i)
+          VH_CHECK(!others[i]->wasNotified(), "C19:observer:alloc-failure:poll-after-observable-died", "observer #" + std::to_string(i) + " reports a notification after its observable died", ctx);
+      } else if (made) {
+        obs->notifyObservers();
+        VH_CHECK(made->wasNotified(), "C19:observer:alloc-failure:constructed-observer-missed-notification", "an observer constructed without failure did not see the notification", ctx);
+        made->~Observer();
+      }
+      for (size_t i = 0; i < others.size(); ++i)
+        delete others[i];
+      delete obs;
+      free(buf);
+      vh::evaluated(vh::hash64(1919, (uint64_t)pre * 8 + (uint64_t)failAt), failed);
+    }
+  vh::count("alloc_failure_cases", cases);
+  vh::count("alloc_failures_fired_in_observer_construction", fired);
+}
+
 // ------------------------------------------------------------------ main
 // ------------------------------------------------------------------ part (c): objects with static storage
 // Stamps taken before main() - by objects with static storage in the application's translation unit, which in the
@@ -778,6 +858,9 @@ int main(int argc, char **argv)
       }
     }
   }
+
+  if (vh::st().onlyCase < 0)
+    allocFailureCases();
 
   // (b)
   if (vh::st().onlyCase < 0) {
